@@ -709,6 +709,18 @@ func (env *SpecEnv) call(e *SExpr) SVal {
 			inside := And(Eq(r, Field(x.T, 0)), c.WLe(lo, j), c.WLt(j, hi))
 			body := Implies(Not(inside), Eq(Select(Select(cur, r), j), Select(Select(old, r), j)))
 			return SVal{T: Forall([]*Term{r, j}, body, Select(Select(cur, r), j)), Typ: types.Typ[types.Bool]}
+		case "snapshot":
+			// the current contents of a Go map as a mathematical map value
+			x := env.eval(args[0])
+			mt, ok := types.Unalias(x.Typ).Underlying().(*types.Map)
+			if !ok {
+				env.fail("snapshot needs a map")
+			}
+			g := &Block{Kind: "ghost", Name: "snap", Result: ""}
+			_ = g
+			srt := fv.mathMapSort(mt)
+			fv.nilMapFacts(env.st, mt)
+			return SVal{T: MkDT(srt, fv.mapHas(env.st, x.T, mt), fv.mapVals(env.st, x.T, mt)), Typ: x.Typ, Math: true}
 		case "allocated":
 			x := env.eval(args[0])
 			return SVal{T: And(ILe(IntLit(0), x.T), ILt(x.T, env.st.nextRef)), Typ: types.Typ[types.Bool]}
@@ -868,23 +880,33 @@ func (env *SpecEnv) applyGoFunc(f SVal, args []*SExpr) SVal {
 	i := 0
 	if f.Recv != nil {
 		rv := *f.Recv
-		// pointer receiver / value receiver adaptation
+		// pure functions depend on the pointee: a pointer receiver is read through
 		want := names[0].typ
-		if _, wantPtr := types.Unalias(want).Underlying().(*types.Pointer); wantPtr {
-			if _, isPtr := types.Unalias(rv.Typ).Underlying().(*types.Pointer); !isPtr {
-				env.fail("method %s needs pointer receiver", sfn.String())
-			}
-		} else if pt, isPtr := types.Unalias(rv.Typ).Underlying().(*types.Pointer); isPtr {
+		_, wantPtr := types.Unalias(want).Underlying().(*types.Pointer)
+		pt, isPtr := types.Unalias(rv.Typ).Underlying().(*types.Pointer)
+		switch {
+		case wantPtr && isPtr, !wantPtr && isPtr:
 			l := fv.locOf(rv.T, pt.Elem())
 			rv = SVal{T: fv.load(env.st, l).(*Term), Typ: pt.Elem()}
+			ats = append(ats, rv.T)
+		case wantPtr && !isPtr:
+			ats = append(ats, rv.T)
+		default:
+			ats = append(ats, fv.pureArg(env.st, rv.T, names, 0)...)
 		}
-		ats = append(ats, fv.pureArg(env.st, rv.T, names, 0)...)
 		i = 1
 	}
 	for j, a := range args {
 		v := env.eval(a)
 		if i+j < len(names) {
 			v = env.coerce(v, names[i+j].typ)
+			if pt, ok := types.Unalias(names[i+j].typ).Underlying().(*types.Pointer); ok {
+				if _, isPtr := types.Unalias(v.Typ).Underlying().(*types.Pointer); isPtr {
+					l := fv.locOf(v.T, pt.Elem())
+					ats = append(ats, fv.load(env.st, l).(*Term))
+					continue
+				}
+			}
 		}
 		ats = append(ats, fv.pureArg(env.st, v.T, names, i+j)...)
 	}
@@ -923,21 +945,25 @@ func (fv *FuncVer) declareGhostLocals() {
 	}
 }
 
+func (fv *FuncVer) mathMapSort(mt *types.Map) *Sort {
+	c := fv.ctx
+	ks, es := c.SortOf(mt.Key()), c.SortOf(mt.Elem())
+	name := "MM_" + sanitize(ks.Name) + "_" + sanitize(es.Name)
+	if s, ok := c.sorts["math:"+name]; ok {
+		return s
+	}
+	hs, vs := c.ArraySort(ks, SBool), c.ArraySort(ks, es)
+	s := &Sort{Name: name}
+	s.DT = &Datatype{Ctor: "mk-" + name, Fields: []DTField{{name + ".has", hs}, {name + ".val", vs}}}
+	s.sym = c.addSym(name, fmt.Sprintf("(declare-datatypes ((%s 0)) (((mk-%s (%s.has %s) (%s.val %s)))))", name, name, name, hs.Name, name, vs.Name), sortDeps(hs, vs)...)
+	c.sorts["math:"+name] = s
+	return s
+}
+
 func (fv *FuncVer) ghostSort(g *Block) (*Sort, types.Type, bool) {
 	t := fv.eng.parseType(g.Result, fv.eng.pkgOfBlock(g))
 	if mt, ok := types.Unalias(t).Underlying().(*types.Map); ok {
-		c := fv.ctx
-		ks, es := c.SortOf(mt.Key()), c.SortOf(mt.Elem())
-		name := "MM_" + sanitize(ks.Name) + "_" + sanitize(es.Name)
-		if s, ok := c.sorts["math:"+name]; ok {
-			return s, t, true
-		}
-		hs, vs := c.ArraySort(ks, SBool), c.ArraySort(ks, es)
-		s := &Sort{Name: name}
-		s.DT = &Datatype{Ctor: "mk-" + name, Fields: []DTField{{name + ".has", hs}, {name + ".val", vs}}}
-		s.sym = c.addSym(name, fmt.Sprintf("(declare-datatypes ((%s 0)) (((mk-%s (%s.has %s) (%s.val %s)))))", name, name, name, hs.Name, name, vs.Name), sortDeps(hs, vs)...)
-		c.sorts["math:"+name] = s
-		return s, t, true
+		return fv.mathMapSort(mt), t, true
 	}
 	return fv.ctx.SortOf(t), t, false
 }
